@@ -186,6 +186,56 @@ Definition sds_views (writer : Z) (l : list dataset) : list line :=
    else map (sds_line w_vg nt_base file_order) nl ++ cnt w_vg ++
         map (sds_line w_sdn same_type same_order) ndl ++ [[TS w_sdn; TS w_n; TI (zlen ndl)]]).
 
+(* ---- a session of the single-file SDS writer ----------------------------------------------------------- *)
+(** The single-file calls keep the settings of the writer between datasets (the documented contract of DFSDsetdims,
+    DFSDsetNT, DFSDsetdimscale, DFSDsetdatastrs, DFSDsetdimstrs, DFSDsetrange, DFSDclear):
+      - new dimensions forget scales and all strings; the same dimensions again change nothing;
+      - a new number type forgets the scales (their values have the data's type);
+      - a scale, the strings of a dimension, the data strings stay in effect until replaced, removed (scale = none)
+        or forgotten as above;  the range applies to the next dataset only;  DFSDclear forgets everything.
+    The content of the file is the list of datasets with the settings in effect when each was added. *)
+Inductive dfsd_op :=
+  | OpDims (d : list Z) | OpNT (nt : Z) | OpScale (dim : Z) (s : option (list Z))
+  | OpStrs (l u f : list Z) | OpDimStrs (dim : Z) (l u f : list Z) | OpRange (mx mn : list Z)
+  | OpAdd (data : list Z) | OpClear.
+
+Record dfsd_settings := mkSet {
+  ws_dims : list Z; ws_nt : Z; ws_scales : list (option (list Z));
+  ws_dstrs : list (option (list Z * list Z * list Z)); ws_strs : option (list Z * list Z * list Z);
+  ws_range : option (list Z * list Z) }.
+
+Definition nones {A} (l : list Z) : list (option A) := map (fun _ => None) l.
+Fixpoint set_nth {A} (n : nat) (v : A) (l : list A) : list A :=
+  match l, n with [], _ => [] | _ :: t, O => v :: t | h :: t, S k => h :: set_nth k v t end.
+Fixpoint list_eqb (a b : list Z) : bool :=
+  match a, b with [], [] => true | x :: a', y :: b' => (x =? y) && list_eqb a' b' | _, _ => false end.
+
+Definition settings0 : dfsd_settings := mkSet [] 5 [] [] None None.      (* number type defaults to float32 *)
+
+Definition dfsd_step (st : dfsd_settings) (op : dfsd_op) : dfsd_settings * list dataset :=
+  match op with
+  | OpDims d => if list_eqb d (ws_dims st) then (st, [])
+                else (mkSet d (ws_nt st) (nones d) (nones d) None None, [])
+  | OpNT nt => if nt =? ws_nt st then (st, [])
+               else (mkSet (ws_dims st) nt (nones (ws_dims st)) (ws_dstrs st) (ws_strs st) None, [])
+  | OpScale i s => (mkSet (ws_dims st) (ws_nt st) (set_nth (Z.to_nat i) s (ws_scales st)) (ws_dstrs st) (ws_strs st) (ws_range st), [])
+  | OpStrs l u f => (mkSet (ws_dims st) (ws_nt st) (ws_scales st) (ws_dstrs st) (Some (l, u, f)) (ws_range st), [])
+  | OpDimStrs i l u f =>
+      (mkSet (ws_dims st) (ws_nt st) (ws_scales st) (set_nth (Z.to_nat i) (Some (l, u, f)) (ws_dstrs st)) (ws_strs st) (ws_range st), [])
+  | OpRange mx mn => (mkSet (ws_dims st) (ws_nt st) (ws_scales st) (ws_dstrs st) (ws_strs st) (Some (mx, mn)), [])
+  | OpAdd data =>
+      (mkSet (ws_dims st) (ws_nt st) (ws_scales st) (ws_dstrs st) (ws_strs st) None,
+       [mkDs (ws_dims st) (ws_nt st) data (ws_scales st) (ws_strs st) (ws_range st) (ws_dstrs st) (map (fun _ => []) (ws_dims st))])
+  | OpClear => (settings0, [])
+  end.
+
+Fixpoint dfsd_session_from (st : dfsd_settings) (ops : list dfsd_op) : list dataset :=
+  match ops with
+  | [] => []
+  | op :: r => let (st', out) := dfsd_step st op in out ++ dfsd_session_from st' r
+  end.
+Definition dfsd_session (ops : list dfsd_op) : list dataset := dfsd_session_from settings0 ops.
+
 (* ---- raster images.  Writers: 1 = DFR8 (one component) / DF24 (three), 2 = GR ------------------------ *)
 Definition pal_tok (p : option (list Z)) : list tok :=
   match p with Some b => [TH b] | None => [TS w_nopal] end.
